@@ -29,7 +29,8 @@ type spart struct {
 }
 
 type item struct {
-	K      string // text | elem | expr | script | comment | if | for | void
+	K      string // text | elem | expr | script | comment | if | for | void | inline
+	Post   string // inline: static text right after the expression, on the same line
 	Text   string
 	Tag    string
 	Attrs  []attr
@@ -39,7 +40,7 @@ type item struct {
 	Script []spart
 }
 
-var texts = []string{"hello", `it's "quoted" text`, `back\slash \n not-a-newline`, "ünï©ødé 日本 ✓", "tab\there", "a &amp; b &lt; c", "ctl\x01byte", "nbsp end", "percent %d %s", "line one\n\t\tline two", "`backtick`", "trailing space ", "x", "$dollar #hash @at", "emoji 😀"}
+var texts = []string{"caf\xe9 latin-1 byte", "hello", `it's "quoted" text`, `back\slash \n not-a-newline`, "ünï©ødé 日本 ✓", "tab\there", "a &amp; b &lt; c", "ctl\x01byte", "nbsp end", "percent %d %s", "line one\n\t\tline two", "`backtick`", "trailing space ", "x", "$dollar #hash @at", "emoji 😀"}
 var statVals = []string{"v", "two words", "it's", "a&amp;b", "ünï", `back\slash`, "", "100%"}
 var strExprs = []string{"x", "y", `x + "!"`, "x + y", `"lit"`}
 var attrNames = []string{"title", "data-a", "data-b", "class", "style", "id", "alt"}
@@ -57,7 +58,9 @@ func (g *gen) leaf() item {
 	if g.r.IntN(30) == 0 {
 		return item{K: "text", Text: bigText}
 	}
-	switch g.r.IntN(9) {
+	switch g.r.IntN(10) {
+	case 9:
+		return item{K: "inline", Text: g.pick([]string{"$", "(", "price: ", "a-", "x"}), Expr: g.pick(strExprs), Post: g.pick([]string{"", ")", " each", "-b", "%"})}
 	case 0, 1:
 		return item{K: "text", Text: g.pick(texts)}
 	case 2, 3:
@@ -143,6 +146,8 @@ func src(items []item, ind int, sb *strings.Builder) {
 			sb.WriteString(tab + it.Text + "\n")
 		case "expr":
 			sb.WriteString(tab + "{ " + it.Expr + " }\n")
+		case "inline":
+			sb.WriteString(tab + "<b>" + it.Text + "{ " + it.Expr + " }" + it.Post + "</b>\n")
 		case "comment":
 			sb.WriteString(tab + "<!-- " + it.Text + " -->\n")
 		case "void":
@@ -253,7 +258,7 @@ func (g *gen) edit(items []item) ([]item, string) {
 		}
 		i := g.r.IntN(len(*l))
 		it := &(*l)[i]
-		switch op := g.r.IntN(12); op {
+		switch op := g.r.IntN(14); op {
 		case 0, 1: // static text edit
 			if it.K == "text" || it.K == "comment" {
 				old := it.Text
@@ -331,6 +336,19 @@ func (g *gen) edit(items []item) ([]item, string) {
 						it.Kids = append([]item{{K: "expr", Expr: a.Expr}}, it.Kids...)
 						return out, "expr-attr-to-text"
 					}
+				}
+			}
+		case 12, 13: // move one character of static text across an expression on the same line
+			if it.K == "inline" {
+				if len(it.Text) > 0 && g.r.IntN(2) == 0 {
+					it.Post = it.Text[len(it.Text)-1:] + it.Post
+					it.Text = it.Text[:len(it.Text)-1]
+					return out, "inline-shift-right"
+				}
+				if len(it.Post) > 0 {
+					it.Text += it.Post[:1]
+					it.Post = it.Post[1:]
+					return out, "inline-shift-left"
 				}
 			}
 		case 6: // reorder
